@@ -8,8 +8,8 @@ RULE = ("loop-free closed graphs on n<=5 cells (n<=6 thorough) x downstream-clos
         "streams.streams; long chains (up to 40 vertices) x max_len 1..12 for the cutting rule; random forests; "
         "FlwdirRaster.streams (mask / min_sto / custom xs, ys / extra maps) and vectorize on random rasters with "
         "feature properties; Python's round() on halves; non-trivial = some stream has more than one link")
-ASSUMPTIONS = ["the global exactly-once cover (links_once) is decided by the independent oracle on the implementation's "
-               "output and by correspondence; the proved parts are the cutting rule (for all lengths) and the single-stream walk"]
+ASSUMPTIONS = ["vertex coordinates and the sampling of extra maps are checked on the implementation's output (oracle); l / max_len and "
+               "round() are exact rationals in the model"]
 
 
 def closed_mask(ds, rng):
